@@ -1,6 +1,735 @@
-//! C10 (stub)
+//! C10 — modular inversion and gcd: invertibility decided exactly, results exact.
+//!
+//! Oracle for inversion: `inv_mod_oracle(a, m)` (extended Euclid on BigInt): none iff gcd(a, m) != 1
+//! (or m = 0); for m >= 2 the unique x in [0, m) with a*x = 1 (mod m). For m = 1 the statement
+//! only requires some(_) (every x is congruent), so only `is_some` is compared there.
+//! Oracle for gcd: `num_integer::Integer::gcd` on the absolute values (gcd(0, 0) = 0).
+//!
+//! The documentation of the inversion functions does not restrict `self` to `self < modulus`, so
+//! every value of the width is used. (MontyForm inv / invert belong to C08.)
+
 use super::prelude::*;
+use crypto_bigint::modular::SafeGcdInverter;
+use crypto_bigint::{Gcd, InvMod, Inverter, PrecomputeInverter};
+use num_integer::Integer;
+
+/// `gcases!(v, "U", "inv_mod", f; (4, 6))` pushes `U256::inv_mod => f::<4, 6>`; the second number is
+/// the unsaturated limb count of the safegcd inverter of that width (`(bits + 64).div_ceil(62)`),
+/// for which `Odd<Uint<L>>: PrecomputeInverter` is implemented by macro.
+macro_rules! gcases {
+    ($v:ident, $pre:literal, $name:expr, $f:ident; $(($l:literal, $u:literal)),+ $(,)?) => {
+        $( $v.push(Case::new(format!("{}{}::{}", $pre, 64 * $l, $name), $f::<$l, $u>)); )+
+    };
+}
+
+/// Inversion check: `got` is `Result<Option<BigUint>, String>`; inputs `a`, `m` (+ more).
+macro_rules! inv_check {
+    ($c:expr, $got:expr; $a:ident, $m:ident $(, $rest:ident)*) => {{
+        let got__: Result<Option<BigUint>, String> = $got;
+        if $m.is_one() {
+            // gcd(a, 1) = 1: must be some; any value is congruent to the inverse
+            check!($c, got__.map(|o| o.is_some()), true; $a, $m $(, $rest)*)
+        } else {
+            check!($c, got__, inv_mod_oracle(&$a, &$m); $a, $m $(, $rest)*)
+        }
+    }};
+}
+
+// ---------------------------------------------------------------- corpora
+
+/// Known primes below 2^bits.
+fn known_primes(bits: u32) -> Vec<BigUint> {
+    let mut v: Vec<BigUint> = [3u64, 5, 7, 11, 13, 65537, 4294967291].iter().map(|&p| BigUint::from(p)).collect();
+    // 2^e - d
+    for (e, d) in [(61u32, 1u32), (64, 59), (89, 1), (127, 1), (128, 159), (128, 173), (192, 237), (255, 19), (256, 189), (521, 1), (607, 1)] {
+        v.push(pow2(e) - d);
+    }
+    v.retain(|p| p.bits() <= bits as u64);
+    v
+}
+
+/// A random odd value of the width.
+fn rnd_odd(c: &mut Ctx, l: usize) -> BigUint {
+    c.rnd(l) | BigUint::one()
+}
+
+/// Residues for the modulus `m` (values of the whole width, also >= m): 0, 1, 2, m-1, m, m+1, 2m+-1,
+/// MAX, halves; values sharing exactly the factor 2 / exactly the odd part / a small prime factor
+/// with m; values with many trailing zeros; powers of two; random ones below m and of full width.
+/// `thin` keeps about a third of the fixed ones (rotating with `salt`).
+fn push_residues(c: &mut Ctx, out: &mut Vec<(BigUint, BigUint)>, m: &BigUint, l: usize, n_rand: usize, thin: bool, salt: usize) {
+    let bits = 64 * l as u32;
+    let max = mask(bits);
+    let mut r: Vec<BigUint> = vec![
+        BigUint::zero(),
+        BigUint::one(),
+        BigUint::from(2u8),
+        max.clone(),
+        &max - 1u32,
+        m.clone(),
+        m + 1u32,
+        m >> 1,
+        (m >> 1) + 1u32,
+        (m << 1) + 1u32,
+    ];
+    if !m.is_zero() {
+        r.push(m - 1u32);
+        r.push((m << 1) - 1u32);
+        r.push((m - 1u32) >> 1);
+    }
+    if m.bits() >= 2 {
+        r.push(m - 2u32);
+    }
+    if thin {
+        let mut i = salt;
+        r.retain(|_| {
+            i += 1;
+            i % 3 == 0
+        });
+    }
+    // factor sharing
+    let mut f: Vec<BigUint> = Vec::new();
+    if !m.is_zero() {
+        let tz = m.trailing_zeros().unwrap_or(0) as u32;
+        let s = m >> tz;
+        if tz > 0 {
+            // only the factor 2 in common (up to chance)
+            f.push((rnd_odd(c, l) << 1u32) & &max);
+            f.push(BigUint::from(2u8));
+            // odd multiple of 2^tz, of 2^(tz+j)
+            f.push((rnd_odd(c, l) << tz) & &max);
+            f.push((rnd_odd(c, l) << (tz + 1 + c.below(8) as u32)) & &max);
+            if !s.is_one() {
+                // only the odd part in common
+                f.push(s.clone());
+                f.push((&s * (rnd_odd(c, l) >> (s.bits() as u32).min(bits - 1))) & &max);
+            }
+        }
+        for p in [3u32, 5, 7, 11, 13] {
+            if (m % p).is_zero() {
+                f.push((c.rnd(l) >> 4u32) * p);
+            }
+        }
+    }
+    // many trailing zeros (long jump steps), powers of two
+    let z = c.below(bits as usize) as u32;
+    f.push((rnd_odd(c, l) << z) & &max);
+    f.push(pow2(c.below(bits as usize) as u32));
+    f.push(pow2(bits - 1));
+    if thin {
+        let mut i = salt;
+        f.retain(|_| {
+            i += 1;
+            i % 2 == 0
+        });
+    }
+    r.extend(f);
+    for i in 0..n_rand {
+        if i % 2 == 0 && !m.is_zero() {
+            r.push(c.rnd_below(m));
+        } else {
+            r.push(c.rnd(l));
+        }
+    }
+    for a in r {
+        out.push((a & &max, m.clone()));
+    }
+}
+
+/// (a, m) pairs for the inversion cases. `even = false`: odd moduli only (primes, odd composites
+/// with known factors, 1, 2^BITS - 1, edge values forced odd). `even = true`: additionally 2^k and
+/// s * 2^k for every k in 0..BITS, generic even moduli, and m = 0.
+pub fn inv_pairs(c: &mut Ctx, l: usize, even: bool) -> Vec<(BigUint, BigUint)> {
+    let bits = 64 * l as u32;
+    let max = mask(bits);
+    // wide types and heavily scaled budgets (BoxedUint precisions sharing a small budget)
+    let thin = l > 4 || c.cap < 512;
+    // U2048: a token corpus only (one ct inversion costs several ms)
+    let tiny = l > 16;
+    let mut v: Vec<(BigUint, BigUint)> = Vec::new();
+    let primes = known_primes(bits);
+
+    // odd moduli
+    let mut ms: Vec<BigUint> = vec![BigUint::one(), max.clone(), pow2(bits - 1) + 1u32, pow2(bits - 1) - 1u32, pow2(bits / 2) + 1u32];
+    ms.extend(primes.iter().cloned());
+    // 3^j, largest fitting
+    let mut t = BigUint::from(3u8);
+    while (&t * 3u32) <= max {
+        t *= 3u32;
+    }
+    ms.push(t);
+    if tiny {
+        ms = vec![BigUint::one(), max.clone(), pow2(255) - 19u32, pow2(607) - 1u32, ms.pop().unwrap()];
+    }
+    let n_m = if tiny { 3 } else { (c.cap / 64).clamp(8, 64) };
+    ms.extend(c.moduli(l, true, n_m));
+    let n_rand = if thin { 2 } else { 4 };
+    for (i, m) in ms.iter().enumerate() {
+        push_residues(c, &mut v, m, l, n_rand, thin, i);
+    }
+
+    // odd composites with known factors: a = p, q, multiples of p and of q, p + q, (p-1)(q-1)
+    let n_sp = if tiny { 3 } else { (c.cap / 32).clamp(8, 128) };
+    for _ in 0..n_sp {
+        let p = primes[c.below(primes.len())].clone();
+        let q = primes[c.below(primes.len())].clone();
+        let m = &p * &q;
+        if m > max {
+            continue;
+        }
+        let free = bits - m.bits() as u32;
+        let r1 = c.rnd(l) >> (bits - q.bits() as u32 - free).min(bits - 1);
+        let r2 = c.rnd(l) >> (bits - p.bits() as u32 - free).min(bits - 1);
+        for a in [p.clone(), q.clone(), (&p * r1) & &max, (&q * r2) & &max, &p + &q, (&p - 1u32) * (&q - 1u32), c.rnd_below(&m)] {
+            v.push((a, m.clone()));
+        }
+    }
+
+    if even {
+        // 2^k and s * 2^k for every k (a stride coprime to the shape periods when the budget is
+        // below BITS / 2 pairs, i.e. U1024 with a reduced --cap; U2048: every 97th)
+        let want = if tiny { 97 } else { (bits as usize / (2 * c.cap.max(1))).max(1) };
+        let kstep = [1usize, 7, 11, 13, 17, 19, 23, 29, 31, 37, 97].into_iter().find(|&s| s >= want).unwrap_or(97);
+        let per_k = (c.cap / bits as usize).clamp(1, 12);
+        for k in (0..bits).step_by(kstep) {
+            let sbits = bits - k;
+            let s = match k % 5 {
+                0 => mask(sbits),
+                1 => (c.rnd(l) >> k) | BigUint::one(),
+                2 => primes.iter().filter(|p| p.bits() <= sbits as u64).next_back().cloned().unwrap_or_else(BigUint::one),
+                3 => (c.rnd(l) >> (k + c.below(sbits as usize) as u32)) | BigUint::one(),
+                _ => BigUint::from(3u8) & mask(sbits),
+            };
+            let m = &s << k;
+            let p2 = pow2(k);
+            let shapes = 12;
+            for i in 0..per_k {
+                let (a, md) = match (k as usize + i * 5) % shapes {
+                    0 => (rnd_odd(c, l), &m),
+                    1 => ((rnd_odd(c, l) << 1u32) & &max, &m),
+                    2 => (s.clone(), &m),
+                    3 => ((&s * (rnd_odd(c, l) >> (bits - k).min(bits - 1))) & &max, &m),
+                    4 => (c.rnd_below(&m), &m),
+                    5 => (&m - 1u32, &m),
+                    6 => ((&m + 1u32) & &max, &m),
+                    7 => (rnd_odd(c, l), &p2),
+                    8 => (max.clone(), &p2),
+                    9 => (&p2 - 1u32, &p2),
+                    10 => ((&p2 + 1u32) & &max, &p2),
+                    _ => (c.rnd(l), &p2),
+                };
+                v.push((a, md.clone()));
+            }
+        }
+        // generic even / arbitrary moduli
+        for (i, m) in c.moduli(l, false, n_m).iter().enumerate() {
+            push_residues(c, &mut v, m, l, n_rand, thin, i);
+        }
+        // m = 0: none, without panicking
+        let zero = BigUint::zero();
+        push_residues(c, &mut v, &zero, l, 2, thin, 0);
+    }
+
+    // the generic pair corpus (random pairs are almost always coprime: the main path)
+    for (i, (a, m)) in c.scaled(4, |c| c.inputs2(l, l)).into_iter().enumerate() {
+        if tiny && i % 4 != 0 {
+            continue;
+        }
+        let m = if even { m } else { m | BigUint::one() };
+        v.push((a, m));
+    }
+    v
+}
+
+/// (a, b) pairs for gcd: the generic pair corpus plus zeros, equal values, powers of two, pairs
+/// with a planted common factor, values with many trailing zeros, consecutive Fibonacci numbers,
+/// primes and their multiples.
+pub fn gcd_pairs(c: &mut Ctx, l: usize) -> Vec<(BigUint, BigUint)> {
+    let bits = 64 * l as u32;
+    let max = mask(bits);
+    let mut v = c.scaled(2, |c| c.inputs2(l, l));
+    let z = BigUint::zero();
+    let one = BigUint::one();
+    let top = pow2(bits - 1);
+    for (a, b) in [
+        (&z, &z),
+        (&z, &one),
+        (&one, &z),
+        (&z, &max),
+        (&max, &z),
+        (&max, &max),
+        (&max, &(&max - 1u32)),
+        (&top, &top),
+        (&top, &max),
+        (&top, &z),
+        (&z, &top),
+        (&top, &(&top - 1u32)),
+        (&(&max - 1u32), &top),
+    ] {
+        v.push((a.clone(), b.clone()));
+    }
+    // powers of two
+    let step = (bits as usize * 4 / c.cap.max(1)).max(1);
+    for i in (0..bits).step_by(step) {
+        let j = c.below(bits as usize) as u32;
+        v.push((pow2(i), pow2(j)));
+        v.push(((rnd_odd(c, l) << i) & &max, (rnd_odd(c, l) << j) & &max));
+        v.push(match (i as usize / step) % 5 {
+            0 => (pow2(i), pow2(i)),
+            1 => (pow2(i), z.clone()),
+            2 => (z.clone(), pow2(i)),
+            3 => (pow2(i), c.rnd(l)),
+            _ => ((rnd_odd(c, l) << i) & &max, pow2(j)),
+        });
+    }
+    // planted common factor
+    let primes = known_primes(bits);
+    for round in 0..(c.iters / 4).max(16) {
+        let gb = 1 + c.below(bits as usize - 1) as u32;
+        let mut g = c.rnd(l) >> (bits - gb);
+        if g.is_zero() {
+            g = BigUint::one();
+        }
+        match round % 4 {
+            0 => g |= BigUint::one(),
+            1 => g = (g << (c.below(gb as usize) as u32)) & mask(gb),
+            2 => g = primes[c.below(primes.len())].clone(),
+            _ => {}
+        }
+        if g.is_zero() {
+            g = pow2(gb - 1);
+        }
+        let free = bits - g.bits() as u32;
+        let cof = |c: &mut Ctx| if free == 0 { BigUint::one() } else { c.rnd(l) >> (bits - free) };
+        let (x, y) = (cof(c), cof(c));
+        v.push((&g * &x, &g * &y));
+        v.push((g.clone(), &g * &y));
+        v.push((&g * &x, g.clone()));
+        v.push((&g * &x, &g * &x));
+        v.push((&g * &x, &g * (&x + 1u32) & &max));
+    }
+    // Fibonacci neighbours (slow Euclid; many small quotients)
+    let (mut f0, mut f1) = (BigUint::one(), BigUint::one());
+    let mut fibs = Vec::new();
+    while f1 <= max {
+        fibs.push((f1.clone(), f0.clone()));
+        let n = &f0 + &f1;
+        f0 = f1;
+        f1 = n;
+    }
+    let keep = if l > 4 { 8 } else { (c.cap / 32).clamp(4, 64) };
+    let fl = fibs.len();
+    for (i, (a, b)) in fibs.into_iter().enumerate() {
+        if i + keep >= fl || i % 16 == 0 {
+            v.push((b.clone(), a.clone()));
+            v.push((a, b));
+        }
+    }
+    // random equal / shifted
+    for _ in 0..(c.iters / 16).max(4) {
+        let r = c.rnd(l);
+        v.push((r.clone(), r.clone()));
+        let s = c.below(bits as usize) as u32;
+        v.push((r.clone(), &r >> s));
+        v.push((r.clone(), (&r << s) & &max));
+    }
+    v
+}
+
+/// Budget divisor of a width (safegcd runs (49 bits + 80) / 17 jumps of 62 divsteps).
+fn div_for(l: usize) -> usize {
+    match l {
+        0..=4 => 1,
+        5..=16 => 8,
+        _ => 64,
+    }
+}
+
+/// A signed reading of an unsigned corpus value: two's complement reinterpretation, or the negated
+/// low part.
+fn signed_view(a: &BigUint, bits: u32, i: usize) -> BigInt {
+    match i % 3 {
+        0 => wrap_signed(&BigInt::from(a.clone()), bits),
+        1 => -BigInt::from(a & mask(bits - 1)),
+        _ => BigInt::from(a & mask(bits - 1)),
+    }
+}
+
+// ---------------------------------------------------------------- Uint inversion
+
+fn inv_odd_mod<const L: usize, const U: usize>(c: &mut Ctx)
+where
+    Odd<Uint<L>>: PrecomputeInverter<Inverter = SafeGcdInverter<L, U>, Output = Uint<L>>,
+{
+    for (a, m) in c.scaled(div_for(L), |c| inv_pairs(c, L, false)) {
+        if c.done() {
+            return;
+        }
+        let (x, y) = (bu::<L>(&a), oddu::<L>(&m));
+        inv_check!(c, call(|| copt(x.inv_odd_mod(&y))).map(|o| o.map(|r| ub(&r))); a, m);
+    }
+}
+
+fn inv_mod<const L: usize, const U: usize>(c: &mut Ctx)
+where
+    Odd<Uint<L>>: PrecomputeInverter<Inverter = SafeGcdInverter<L, U>, Output = Uint<L>>,
+{
+    for (i, (a, m)) in c.scaled(div_for(L), |c| inv_pairs(c, L, true)).into_iter().enumerate() {
+        if c.done() {
+            return;
+        }
+        if L > 16 && c.cap < 2048 && i % 2 != 0 {
+            continue; // U2048 with a reduced --cap
+        }
+        let (x, y) = (bu::<L>(&a), bu::<L>(&m));
+        inv_check!(c, call(|| copt(x.inv_mod(&y))).map(|o| o.map(|r| ub(&r))); a, m);
+        if L <= 4 || i % 4 == 0 {
+            inv_check!(c, call(|| opt(<Uint<L> as InvMod>::inv_mod(&x, &y))).map(|o| o.map(|r| ub(&r))); a, m);
+        }
+    }
+}
+
+fn inverter<const L: usize, const U: usize>(c: &mut Ctx)
+where
+    Odd<Uint<L>>: PrecomputeInverter<Inverter = SafeGcdInverter<L, U>, Output = Uint<L>>,
+{
+    for (a, m) in c.scaled(div_for(L), |c| inv_pairs(c, L, false)) {
+        if c.done() {
+            return;
+        }
+        let (x, y) = (bu::<L>(&a), oddu::<L>(&m));
+        let inv = match call(|| y.precompute_inverter()) {
+            Ok(i) => i,
+            Err(p) => {
+                no_panic!(c, Err::<(), String>(p); m);
+                continue;
+            }
+        };
+        let ct = call(|| opt(inv.invert(&x)));
+        let vt = call(|| opt(inv.invert_vartime(&x)));
+        let same = match (&ct, &vt) {
+            (Ok(p), Ok(q)) => p == q,
+            _ => true,
+        };
+        inv_check!(c, ct.map(|o| o.map(|r| ub(&r))); a, m);
+        inv_check!(c, vt.map(|o| o.map(|r| ub(&r))); a, m);
+        let _ = holds!(c, same, "invert == invert_vartime"; a, m);
+    }
+}
+
+/// k values for the mod 2^k forms: all of 0..=bits, or the limb boundaries and a few others
+fn ks_for(c: &mut Ctx, bits: u32, full: bool) -> Vec<u32> {
+    if full {
+        return (0..=bits).collect();
+    }
+    let mut ks = vec![0, 1, 2, 3, 61, 62, 63, bits - 1, bits, bits / 2];
+    for i in 1..bits / 64 {
+        ks.extend([64 * i - 1, 64 * i, 64 * i + 1]);
+    }
+    for _ in 0..8 {
+        ks.push(c.below(bits as usize + 1) as u32);
+    }
+    ks.retain(|&k| k <= bits);
+    ks
+}
+
+/// values for the mod 2^k forms (odd and even)
+fn mod2k_values(c: &mut Ctx, l: usize, n: usize) -> Vec<BigUint> {
+    let bits = 64 * l as u32;
+    let max = mask(bits);
+    let mut v = vec![max.clone(), rnd_odd(c, l), c.rnd(l) << 1u32 & &max, BigUint::one(), BigUint::from(3u8), pow2(bits - 1) + 1u32];
+    v.extend([BigUint::zero(), BigUint::from(2u8), &max - 1u32, pow2(bits - 1), pow2(bits / 2) + 1u32, pow2(bits / 2) - 1u32, &max / 3u32]);
+    for p in known_primes(bits) {
+        v.push(p);
+    }
+    v.extend(c.edges(l, n / 2));
+    while v.len() < n {
+        let z = c.below(bits as usize) as u32;
+        v.push(match v.len() % 3 {
+            0 => rnd_odd(c, l),
+            1 => c.rnd(l),
+            _ => (rnd_odd(c, l) << z) & &max,
+        });
+    }
+    v.truncate(n.max(8));
+    v
+}
+
+fn inv_mod2k<const L: usize>(c: &mut Ctx) {
+    let bits = 64 * L as u32;
+    let n_full = if L > 4 { 2 } else { (c.cap / bits as usize).clamp(3, 64) };
+    let n = if L > 4 { 24 } else { (c.cap / 16).max(n_full) };
+    for (i, a) in mod2k_values(c, L, n).into_iter().enumerate() {
+        let x = bu::<L>(&a);
+        for k in ks_for(c, bits, i < n_full) {
+            if c.done() {
+                return;
+            }
+            let m = pow2(k);
+            let ct = call(|| copt(x.inv_mod2k(k)));
+            let vt = call(|| copt(x.inv_mod2k_vartime(k)));
+            let same = match (&ct, &vt) {
+                (Ok(p), Ok(q)) => p == q,
+                _ => true,
+            };
+            inv_check!(c, ct.map(|o| o.map(|r| ub(&r))); a, m, k);
+            inv_check!(c, vt.map(|o| o.map(|r| ub(&r))); a, m, k);
+            let _ = holds!(c, same, "inv_mod2k == inv_mod2k_vartime"; a, k);
+        }
+    }
+}
+
+// ---------------------------------------------------------------- Int inversion
+
+fn int_inv_odd_mod<const L: usize, const U: usize>(c: &mut Ctx)
+where
+    Odd<Uint<L>>: PrecomputeInverter<Inverter = SafeGcdInverter<L, U>, Output = Uint<L>>,
+{
+    let bits = 64 * L as u32;
+    let mut pairs = c.scaled(div_for(L), |c| inv_pairs(c, L, false));
+    // MIN against a few moduli
+    let ms: Vec<BigUint> = pairs.iter().step_by(97).map(|p| p.1.clone()).collect();
+    pairs.extend(ms.into_iter().map(|m| (pow2(bits - 1), m)));
+    for (i, (au, m)) in pairs.into_iter().enumerate() {
+        if c.done() {
+            return;
+        }
+        let a = signed_view(&au, bits, if au == pow2(bits - 1) { 0 } else { i });
+        let ar = mod_pos(&a, &m);
+        let (x, y) = (bi::<L>(&a), oddu::<L>(&m));
+        let got = call(|| opt(x.inv_odd_mod(&y))).map(|o| o.map(|r| ub(&r)));
+        if m.is_one() {
+            check!(c, got.map(|o| o.is_some()), true; a, m);
+        } else {
+            check!(c, got, inv_mod_oracle(&ar, &m); a, m);
+        }
+    }
+}
+
+fn int_inv_mod<const L: usize, const U: usize>(c: &mut Ctx)
+where
+    Odd<Uint<L>>: PrecomputeInverter<Inverter = SafeGcdInverter<L, U>, Output = Uint<L>>,
+{
+    let bits = 64 * L as u32;
+    let mut pairs = c.scaled(div_for(L), |c| inv_pairs(c, L, true));
+    if L > 4 {
+        // every k is covered by Uint::inv_mod; a sample here
+        let mut i = 0;
+        pairs.retain(|_| {
+            i += 1;
+            i % 3 == 0
+        });
+    }
+    let ms: Vec<BigUint> = pairs.iter().step_by(97).map(|p| p.1.clone()).collect();
+    pairs.extend(ms.into_iter().map(|m| (pow2(bits - 1), m)));
+    for (i, (au, m)) in pairs.into_iter().enumerate() {
+        if c.done() {
+            return;
+        }
+        if m.is_zero() {
+            continue; // NonZero modulus
+        }
+        let a = signed_view(&au, bits, if au == pow2(bits - 1) { 0 } else { i });
+        let ar = mod_pos(&a, &m);
+        let (x, y) = (bi::<L>(&a), nzu::<L>(&m));
+        let got = call(|| opt(InvMod::inv_mod(&x, &y))).map(|o| o.map(|r| ub(&r)));
+        if m.is_one() {
+            check!(c, got.map(|o| o.is_some()), true; a, m);
+        } else {
+            check!(c, got, inv_mod_oracle(&ar, &m); a, m);
+        }
+    }
+}
+
+// ---------------------------------------------------------------- gcd
+
+fn gcd<const L: usize, const U: usize>(c: &mut Ctx)
+where
+    Odd<Uint<L>>: PrecomputeInverter<Inverter = SafeGcdInverter<L, U>, Output = Uint<L>>,
+{
+    for (i, (a, b)) in c.scaled(div_for(L), |c| gcd_pairs(c, L)).into_iter().enumerate() {
+        if c.done() {
+            return;
+        }
+        if L > 16 && i % (if c.cap < 2048 { 8 } else { 4 }) != 0 {
+            continue; // U2048: a token corpus
+        }
+        let (x, y) = (bu::<L>(&a), bu::<L>(&b));
+        let g = a.gcd(&b);
+        check!(c, call(|| x.gcd(&y)).map(|r| ub(&r)), g.clone(); a, b);
+        check!(c, call(|| <Uint<L> as Gcd>::gcd_vartime(&x, &y)).map(|r| ub(&r)), g.clone(); a, b);
+        if L <= 4 || i % 8 == 0 {
+            check!(c, call(|| <Uint<L> as Gcd>::gcd(&x, &y)).map(|r| ub(&r)), g; a, b);
+        }
+    }
+}
+
+fn odd_gcd_vartime<const L: usize, const U: usize>(c: &mut Ctx)
+where
+    Odd<Uint<L>>: PrecomputeInverter<Inverter = SafeGcdInverter<L, U>, Output = Uint<L>>,
+{
+    for (a, b) in c.scaled(div_for(L).min(8), |c| gcd_pairs(c, L)) {
+        if c.done() {
+            return;
+        }
+        let a = a | BigUint::one();
+        let (x, y) = (oddu::<L>(&a), bu::<L>(&b));
+        check!(c, call(|| x.gcd_vartime(&y)).map(|r| ub(&r)), a.gcd(&b); a, b);
+    }
+}
+
+fn int_gcd<const L: usize, const U: usize>(c: &mut Ctx)
+where
+    Odd<Uint<L>>: PrecomputeInverter<Inverter = SafeGcdInverter<L, U>, Output = Uint<L>>,
+{
+    let bits = 64 * L as u32;
+    for (i, (au, bv)) in c.scaled(div_for(L), |c| gcd_pairs(c, L)).into_iter().enumerate() {
+        if c.done() {
+            return;
+        }
+        // MIN stays MIN; other values get one of the three signed readings
+        let top = pow2(bits - 1);
+        let a = signed_view(&au, bits, if au == top { 0 } else { i });
+        let b = signed_view(&bv, bits, if bv == top { 0 } else { i / 3 });
+        let (x, y) = (bi::<L>(&a), bi::<L>(&b));
+        let g = a.magnitude().gcd(b.magnitude());
+        check!(c, call(|| <Int<L> as Gcd>::gcd(&x, &y)).map(|r| ub(&r)), g.clone(); a, b);
+        check!(c, call(|| <Int<L> as Gcd>::gcd_vartime(&x, &y)).map(|r| ub(&r)), g; a, b);
+        if i % 2 == 0 && (L <= 4 || i % 8 == 0) {
+            // mixed forms: the unsigned operand is used as it is
+            let (xu, yu) = (bu::<L>(&au), bu::<L>(&bv));
+            let g1 = a.magnitude().gcd(&bv);
+            check!(c, call(|| <Int<L> as Gcd<Uint<L>>>::gcd(&x, &yu)).map(|r| ub(&r)), g1.clone(); a, bv);
+            check!(c, call(|| <Int<L> as Gcd<Uint<L>>>::gcd_vartime(&x, &yu)).map(|r| ub(&r)), g1; a, bv);
+            let g2 = au.gcd(b.magnitude());
+            check!(c, call(|| <Uint<L> as Gcd<Int<L>>>::gcd(&xu, &y)).map(|r| ub(&r)), g2.clone(); au, b);
+            check!(c, call(|| <Uint<L> as Gcd<Int<L>>>::gcd_vartime(&xu, &y)).map(|r| ub(&r)), g2; au, b);
+        }
+    }
+}
+
+// ---------------------------------------------------------------- BoxedUint (equal precisions)
+
+fn boxed_inv_odd_mod(c: &mut Ctx) {
+    for nl in 1..=4usize {
+        for (a, m) in c.scaled(4, |c| inv_pairs(c, nl, false)) {
+            if c.done() {
+                return;
+            }
+            let (x, y) = (bx(&a, nl), oddx(&m, nl));
+            inv_check!(c, call(|| opt(x.inv_odd_mod(&y))).map(|o| o.map(|r| xb(&r))); a, m, nl);
+        }
+    }
+}
+
+fn boxed_inverter(c: &mut Ctx) {
+    for nl in 1..=4usize {
+        for (a, m) in c.scaled(4, |c| inv_pairs(c, nl, false)) {
+            if c.done() {
+                return;
+            }
+            let (x, y) = (bx(&a, nl), oddx(&m, nl));
+            let inv = match call(|| y.precompute_inverter()) {
+                Ok(i) => i,
+                Err(p) => {
+                    no_panic!(c, Err::<(), String>(p); m, nl);
+                    continue;
+                }
+            };
+            let ct = call(|| opt(inv.invert(&x)));
+            let vt = call(|| opt(inv.invert_vartime(&x)));
+            let same = match (&ct, &vt) {
+                (Ok(p), Ok(q)) => p == q,
+                _ => true,
+            };
+            inv_check!(c, ct.map(|o| o.map(|r| xb(&r))); a, m, nl);
+            inv_check!(c, vt.map(|o| o.map(|r| xb(&r))); a, m, nl);
+            let _ = holds!(c, same, "invert == invert_vartime"; a, m, nl);
+        }
+    }
+}
+
+fn boxed_inv_mod(c: &mut Ctx) {
+    for nl in 1..=4usize {
+        for (i, (a, m)) in c.scaled(8, |c| inv_pairs(c, nl, true)).into_iter().enumerate() {
+            if c.done() {
+                return;
+            }
+            let (x, y) = (bx(&a, nl), bx(&m, nl));
+            inv_check!(c, call(|| opt(x.inv_mod(&y))).map(|o| o.map(|r| xb(&r))); a, m, nl);
+            if i % 4 == 0 {
+                inv_check!(c, call(|| opt(<BoxedUint as InvMod>::inv_mod(&x, &y))).map(|o| o.map(|r| xb(&r))); a, m, nl);
+            }
+        }
+    }
+}
+
+fn boxed_inv_mod2k(c: &mut Ctx) {
+    for nl in 1..=4usize {
+        let bits = 64 * nl as u32;
+        let n_full = (c.cap / 4 / bits as usize).clamp(3, 16);
+        let n = (c.cap / 64).max(n_full);
+        for (i, a) in mod2k_values(c, nl, n).into_iter().enumerate() {
+            let x = bx(&a, nl);
+            for k in ks_for(c, bits, i < n_full) {
+                if c.done() {
+                    return;
+                }
+                let m = pow2(k);
+                // documented shape: (value, Choice), FALSE when the inverse does not exist
+                let as_opt = |(v, ok): (BoxedUint, Choice)| if cb(ok) { Some(xb(&v)) } else { None };
+                let ct = call(|| x.inv_mod2k(k)).map(as_opt);
+                let vt = call(|| x.inv_mod2k_vartime(k)).map(as_opt);
+                let same = match (&ct, &vt) {
+                    (Ok(p), Ok(q)) => p == q,
+                    _ => true,
+                };
+                inv_check!(c, ct; a, m, k, nl);
+                inv_check!(c, vt; a, m, k, nl);
+                let _ = holds!(c, same, "inv_mod2k == inv_mod2k_vartime"; a, k, nl);
+            }
+        }
+    }
+}
+
+fn boxed_gcd(c: &mut Ctx) {
+    for nl in 1..=4usize {
+        for (i, (a, b)) in c.scaled(8, |c| gcd_pairs(c, nl)).into_iter().enumerate() {
+            if c.done() {
+                return;
+            }
+            let (x, y) = (bx(&a, nl), bx(&b, nl));
+            let g = a.gcd(&b);
+            check!(c, call(|| <BoxedUint as Gcd>::gcd(&x, &y)).map(|r| xb(&r)), g.clone(); a, b, nl);
+            check!(c, call(|| <BoxedUint as Gcd>::gcd_vartime(&x, &y)).map(|r| xb(&r)), g; a, b, nl);
+            // Odd<BoxedUint> (same routine without the power-of-two split): every other pair
+            if i % 2 == 1 {
+                continue;
+            }
+            let ao = &a | BigUint::one();
+            let xo = oddx(&ao, nl);
+            let g = ao.gcd(&b);
+            check!(c, call(|| <Odd<BoxedUint> as Gcd<BoxedUint>>::gcd(&xo, &y)).map(|r| xb(&r)), g.clone(); ao, b, nl);
+            check!(c, call(|| <Odd<BoxedUint> as Gcd<BoxedUint>>::gcd_vartime(&xo, &y)).map(|r| xb(&r)), g; ao, b, nl);
+        }
+    }
+}
 
 pub fn cases() -> Vec<Case> {
-    Vec::new()
+    let mut v = Vec::new();
+    gcases!(v, "U", "inv_odd_mod", inv_odd_mod; (1, 3), (2, 4), (3, 5), (4, 6), (16, 18));
+    gcases!(v, "U", "inv_mod/InvMod::inv_mod", inv_mod; (1, 3), (2, 4), (3, 5), (4, 6), (16, 18), (32, 35));
+    gcases!(v, "U", "precompute_inverter/Inverter::invert/invert_vartime", inverter; (1, 3), (2, 4), (3, 5), (4, 6), (16, 18));
+    ucases!(v, "inv_mod2k/inv_mod2k_vartime", inv_mod2k; 1, 2, 3, 4, 16);
+    gcases!(v, "I", "inv_odd_mod", int_inv_odd_mod; (1, 3), (2, 4), (3, 5), (4, 6), (16, 18));
+    gcases!(v, "I", "InvMod::inv_mod (NonZero<Uint>)", int_inv_mod; (1, 3), (2, 4), (3, 5), (4, 6), (16, 18));
+    gcases!(v, "U", "gcd/Gcd::gcd/Gcd::gcd_vartime", gcd; (1, 3), (2, 4), (3, 5), (4, 6), (16, 18), (32, 35));
+    gcases!(v, "U", "Odd::gcd_vartime", odd_gcd_vartime; (1, 3), (2, 4), (3, 5), (4, 6), (16, 18));
+    gcases!(v, "I", "Gcd::gcd/gcd_vartime (Int/Int, Int/Uint, Uint/Int)", int_gcd; (1, 3), (2, 4), (3, 5), (4, 6), (16, 18));
+    case!(v, "BoxedUint::inv_odd_mod", boxed_inv_odd_mod);
+    case!(v, "BoxedUint precompute_inverter/Inverter::invert/invert_vartime", boxed_inverter);
+    case!(v, "BoxedUint::inv_mod/InvMod::inv_mod", boxed_inv_mod);
+    case!(v, "BoxedUint::inv_mod2k/inv_mod2k_vartime", boxed_inv_mod2k);
+    case!(v, "BoxedUint Gcd::gcd/gcd_vartime (BoxedUint, Odd<BoxedUint>)", boxed_gcd);
+    v
 }
